@@ -29,7 +29,7 @@ pub fn run(cli: &Cli, rep: &Report) {
     rep.rule(
         "(a) partition invariance: for LZMA, LZMA2/XZ without chunk/block size and LZIP, all four mode x finder combinations: EVERY single cut position of a 1.5 KiB input, every k-th (k=1 thorough, 7 quick) \
          plus all boundary cuts of a 9 KiB input, every pair of boundary cuts of window-moving inputs (dict 4096, 300/600 KiB): compressed bytes identical to the single-write run; \
-         (b) allocator independence: every case of a 40-case set encoded under a poisoning allocator with fill 0xA5 and again with 0x5A: identical bytes; \
+         (b) allocator independence: every case of a 40-case set encoded under a poisoning allocator with four fills (bytes A5, bytes 5A, words 00000005, words 00000100): identical outcome (bytes, error or panic); \
          (c) history independence: for every ordered pair (y, x) of a 12-input set and every writer, encode(y) then encode(x) gives the same bytes for x whatever y was; non-trivial = at least one cut / a differing predecessor",
     );
     rep.assumption("the poisoning allocator fills every non-zeroed allocation; zeroed allocations (calloc) stay zero as the crate requests them");
@@ -185,32 +185,40 @@ pub fn run(cli: &Cli, rep: &Report) {
             let j = &jobs[ji];
             let inputs: Vec<Vec<u8>> = set.iter().map(|s| gen::build(s, cli.seed)).collect();
             let enc = |x: usize| -> Option<Vec<u8>> { catch(|| codec::encode(&j.cont, &j.opts, &inputs[x], &[])).ok()?.ok() };
-            // (b) poison A5 vs 5A
+            // (b) four fill patterns for memory the crate did not ask to be zeroed: two byte patterns and two small
+            // words (which look like plausible positions / lengths to a table that is read before it is written)
             for x in 0..inputs.len() {
                 let desc = || format!("C13|poison|{}|{}|{}", j.cont.desc(), j.opts.desc(), gen::shape_desc(&set[x]));
                 if !cli.selected_with(desc) {
                     continue;
                 }
                 st.0 += 1;
-                alloc::set_poison(0xA5);
-                let a = enc(x);
-                alloc::set_poison(0x5A);
-                let b = enc(x);
-                alloc::set_poison(0);
-                match (a, b) {
-                    (Some(a), Some(b)) => {
-                        if a != b {
-                            rep.violation(
-                                Violation::new("allocator-dependent", "compressed bytes depend on the previous content of freshly allocated memory", desc())
-                                    .attr("family", j.cont.family())
-                                    .attr("part", "poison")
-                                    .detail(format!("fill A5: {}; fill 5A: {}", brief(&a), brief(&b))),
-                            );
-                        } else {
-                            st.1.push(hash_desc(&desc()));
-                        }
+                let scope_desc = || desc();
+                let _scope = mc_core::run::case_scope(&scope_desc);
+                // outcome = the bytes, the writer's error, or the panic: all of them must not depend on the fill
+                let outcome = |x: usize| -> String {
+                    match catch(|| codec::encode(&j.cont, &j.opts, &inputs[x], &[])) {
+                        Ok(Ok(b)) => format!("ok {}", brief(&b)),
+                        Ok(Err(e)) => format!("error {:?}: {}", e.kind(), e),
+                        Err(p) => format!("panic {}: {}", p.site(), p.msg),
                     }
-                    _ => {}
+                };
+                let mut seen: Vec<(&str, String)> = vec![];
+                for (name, word) in [("bytes A5", 0xA5A5_A5A5u32), ("bytes 5A", 0x5A5A_5A5A), ("words 00000005", 5), ("words 00000100", 0x100)] {
+                    alloc::set_poison_word(word);
+                    let o = outcome(x);
+                    alloc::unset_poison();
+                    seen.push((name, o));
+                }
+                if let Some(bad) = seen.iter().find(|(_, o)| *o != seen[0].1) {
+                    rep.violation(
+                        Violation::new("allocator-dependent", "the result of compressing depends on the previous content of freshly allocated memory", desc())
+                            .attr("family", j.cont.family())
+                            .attr("part", "poison")
+                            .detail(format!("fill {}: {}; fill {}: {}", seen[0].0, seen[0].1, bad.0, bad.1)),
+                    );
+                } else if seen[0].1.starts_with("ok") {
+                    st.1.push(hash_desc(&desc()));
                 }
             }
             // (c) history independence: result for x after every predecessor y (and after nothing)
@@ -257,6 +265,6 @@ pub fn run(cli: &Cli, rep: &Report) {
         },
     );
     rep.sample(json!({"partition": "lzma2 dict 4096 Normal/BT4, input C5000+X4000, cut at 4097"}));
-    rep.sample(json!({"poison": "xz block 4096, input X300000, allocator fill A5 vs 5A"}));
+    rep.sample(json!({"poison": "xz block 4096, input X300000, allocator fills A5 / 5A / word 5 / word 0x100"}));
     rep.sample(json!({"history": "lzip after R70000 then C9000 vs after nothing"}));
 }
